@@ -33,7 +33,21 @@ SCRIPT_OPS = {
     "deletescript": ("s",), "renamescript": ("s", "t"), "setactive": ("s",),
 }
 KINDS = [None, "NO", "BYE", "SILENCE", "MALFORMED", "BYE:REFERRAL"]
-SASL_LISTS = [["PLAIN"], ["LOGIN", "PLAIN"], ["OAUTHBEARER"], ["DIGEST-MD5", "LOGIN"], ["SCRAM-SHA-1"], [], None]
+SASL_LISTS = [["PLAIN"], ["LOGIN", "PLAIN"], ["OAUTHBEARER"], ["DIGEST-MD5", "LOGIN"], ["SCRAM-SHA-1"], [], None,
+              ["DIGEST-MD5", "PLAIN", "LOGIN"], ["LOGIN", "OAUTHBEARER", "DIGEST-MD5", "PLAIN"], ["DIGEST-MD5", "CRAM-MD5"]]
+IMPL_ORDER = ["DIGEST-MD5", "PLAIN", "LOGIN", "OAUTHBEARER"]
+
+
+def expected_mech(sasl, authmech):
+    """The selection rule of C16, applied to the list that counts (after TLS: the post-TLS one)."""
+    if sasl is None:
+        return None
+    if authmech in IMPL_ORDER:
+        return authmech if authmech in sasl else None
+    for m in IMPL_ORDER:
+        if m in sasl:
+            return m
+    return None
 
 
 @st.composite
@@ -61,7 +75,7 @@ def connection(draw):
                        draw(st.sampled_from(["BYE", "BYE", "NO", "SILENCE"]))))
     cfg["faults"] = faults
     return {"cfg": cfg, "starttls": draw(st.booleans()), "handshake_ok": draw(st.sampled_from([True, True, False])),
-            "authmech": draw(st.sampled_from([None, None, "PLAIN", "LOGIN"]))}
+            "authmech": draw(st.sampled_from([None, None, "PLAIN", "LOGIN", "DIGEST-MD5"]))}
 
 
 @st.composite
@@ -196,6 +210,14 @@ def run(steps, introspect=False):
                             fails.append(("mechanism-not-from-post-TLS-capabilities" + ("|cleartext-appended-to-STARTTLS-reply" if spec["cfg"].get("inject_after_starttls") is not None else ""), det))
                     if spec["cfg"].get("inject_after_starttls") is not None:
                         info["classes"].add("starttls-injection")
+                    tls_attempts = [m for ch, m in c.srv.auth_attempts if ch == "tls"]
+                    if tls_attempts:
+                        post = spec["cfg"]["sasl_tls"] if spec["cfg"]["sasl_tls"] is not None else spec["cfg"]["sasl"]
+                        want = expected_mech(post, spec["authmech"])
+                        if want is not None and tls_attempts[0].upper() != want:
+                            info["classes"].add("pre-post-lists-differ")
+                            fails.append(("mechanism-not-the-one-the-post-TLS-capabilities-call-for|wanted=%s|tried=%s" % (want, tls_attempts[0]),
+                                          dict(det, post_tls_sasl=post, pre_tls_sasl=spec["cfg"]["sasl"], authmech=spec["authmech"])))
                 if res != ("ret", True):
                     failed_before_script = True
                     info["classes"].add("connect-fails")
